@@ -67,6 +67,16 @@ def _iter_sched(P, ks, a, idx):
             return any(g is v or g == v for _, v in ever)
         return isinstance(g, tuple) and len(g) == 2 and any((g[0] is k or keq(g[0], k)) and (g[1] is v or g[1] == v) for k, v in ever)
 
+    cleared = [False]
+
+    def stored_now(g):
+        now = m.pairs()
+        if what == 'k':
+            return any(g is k or keq(g, k) for k, _ in now)
+        if what == 'v':
+            return any(g is v or g == v for _, v in now)
+        return any((g[0] is k or keq(g[0], k)) and (g[1] is v or g[1] == v) for k, v in now)
+
     for c in P['pattern']:
         if c == 'N':
             try:
@@ -82,6 +92,14 @@ def _iter_sched(P, ks, a, idx):
                 continue
             if not plausible(g):
                 fail('an iteration step yielded something that was never in the container', dict(ctx, step=c), common.show(g))
+            elif P['impl'] == 'c' and is_tree and src in LAZY and not cleared[0] and not stored_now(g):
+                # (not after clear(): the sequence keeps the detached, still filled leaves alive and may go on yielding
+                # their entries)
+                # the C lazy sequence keeps no copy of entries: what it yields is read from a leaf at that moment, so an
+                # entry that is not stored NOW came from a slot beyond the leaf's live length (for object keys a
+                # reference the leaf has already released)
+                fail('a C lazy sequence yielded an entry that is not stored at that moment (read from a dead slot of a leaf)',
+                     dict(ctx, step=c), common.show(g))
         else:
             try:
                 if c == 'I':
@@ -115,6 +133,7 @@ def _iter_sched(P, ks, a, idx):
                 else:
                     t.clear()
                     m.items = []
+                    cleared[0] = True
             except Exception as e:      # noqa
                 fail('a mutation raised %s while an iterator / lazy sequence was alive' % type(e).__name__, dict(ctx, step=c))
     # afterwards: sound, and exactly the contents implied by the mutations
